@@ -58,10 +58,11 @@ func VP_C11_Cli() {
 	msg := zzvp.Str("msg", zzvp.Choose(zzvp.Param("msglen", 3)+1), vpMsgAlpha)
 	if zzvp.Choose(2) == 1 {
 		// a first line of several thousand bytes made of words (longer than the 4 KiB buffers of the standard library)
-		msg = ""
+		var lb []byte
 		for i := 0; i < zzvp.Param("longline", 900); i++ {
-			msg += "word" + string(rune('0'+i%10)) + " "
+			lb = append(lb, 'w', 'o', 'r', 'd', byte('0'+i%10), ' ')
 		}
+		msg = string(lb)
 	}
 	zzvp.WriteFile(w+"/f", []byte("1"))
 	vpOK(zzvp.Run("add", "f"))
